@@ -1090,6 +1090,9 @@ class Emitter:
         return v.name
 
     # ---- functions
+    def uses_uncaught(s):
+        return '_ZSt19uncaught_exceptionsv' in s.m.declares or '_ZSt18uncaught_exceptionv' in s.m.declares
+
     def may_throw(s, callee_name):
         if callee_name in s.m.functions:
             return 'nounwind' not in s.fn_attrs(s.m.functions[callee_name].attrs)
@@ -1402,6 +1405,8 @@ class Emitter:
         elif name == '__cxa_throw':
             ti = s.ti_of(ins.args[1][1])
             lines.append(f"__exc_obj = (void*){args[0]}; __exc_type = {s.typeinfos[ti]}; __exc_pending = 1;")
+            if s.uses_uncaught():
+                lines.append("__exc_uncaught++;")
             if s.opts.get('eh_nested'):
                 lines.append("__exc_register(__exc_obj, __exc_type);")
         elif name == '__cxa_allocate_exception' and s.opts.get('typed_exc') and ins.res is not None and isinstance(ins.args[0][1], ConstInt) and s.new_type(f, ins) is not None:
@@ -1412,16 +1417,24 @@ class Emitter:
         elif name == '__cxa_allocate_exception':
             lines.append(f"{res}(u8*)__exc_alloc({args[0]});"); throws = False
         elif name == '__cxa_begin_catch' and s.opts.get('eh_nested'):
+            if s.uses_uncaught():
+                lines.append("if (__exc_uncaught > 0) __exc_uncaught--;")
             lines.append(f"{res}(u8*)__exc_begin_catch((void*){args[0]});"); throws = False
         elif name == '__cxa_end_catch' and s.opts.get('eh_nested'):
             lines.append("__exc_end_catch();"); throws = False
         elif name == '__cxa_rethrow' and s.opts.get('eh_nested'):
+            if s.uses_uncaught():
+                lines.append("__exc_uncaught++;")
             lines.append("__exc_rethrow();")
         elif name == '__cxa_begin_catch':
+            if s.uses_uncaught():
+                lines.append("if (__exc_uncaught > 0) __exc_uncaught--;")
             lines.append(f"{res}(u8*){args[0]};"); throws = False
         elif name in ('__cxa_end_catch', '__cxa_free_exception'):
             throws = False
         elif name == '__cxa_rethrow':
+            if s.uses_uncaught():
+                lines.append("__exc_uncaught++;")
             lines.append("__exc_pending = 1;")
         elif s.opts.get('typed_new') and name == '_Znwm' and ins.res is not None and isinstance(ins.args[0][1], ConstInt) and s.new_type(f, ins) is not None:
             # --typed-new: operator new( <constant> ) whose result is used as T* with sizeof( T ) == <constant>: the size is written as
@@ -1704,6 +1717,7 @@ PRELUDE = PRELUDE_TYPES + r'''
 #endif
 #define __EXC_CATCHALL 0x7fffffff
 static void *__exc_obj; static int __exc_type; static int __exc_pending;
+static int __exc_uncaught;   /* exceptions thrown and not yet caught: maintained only in units that call std::uncaught_exceptions() */
 #ifdef __CPROVER__
 #define __VERIFIER_assume_nonnull(p) __CPROVER_assume((p) != 0)
 #else
